@@ -199,6 +199,10 @@ def lib_dataframe(ev, a, k, n, mod):
             elif isinstance(index, SymRange):
                 nrows = index.n
             return DFV(nrows, {kk: as_sym(vv.items[0]) for kk, vv in data.d.items()}, index)
+        if isinstance(data, Tup) and not getattr(data, "elementwise", False) and len(data.items) == 1 and isinstance(data.items[0], DictV) \
+                and all(isinstance(kk, str) for kk in data.items[0].d):
+            # a list holding ONE record: a table with a single row (not one row per element of a sequence)
+            return DFV(sp.Integer(1), {kk: as_sym(vv) for kk, vv in data.items[0].d.items()})
         raise ev.err("DataFrame(data) of this shape is not modelled", n, mod)
     if isinstance(index, RangeV):
         nrows = sp.Integer(index.hi - index.lo)
